@@ -73,7 +73,7 @@ func init() {
 		[]string{"value-level equality of repeated results", "data races as observed by the race detector"},
 		"the caller's io.ReaderAt honours its documented parallel-use contract")
 	Metas["C16"] = meta(lead+"Rule family X over ParsePKCS7 and the attribute parser / encoder pair, A.lossless, and the signature fact of C04.",
-		[]string{"elements PKCS#7 makes OPTIONAL ([0] content, [0] certificates, [0] signed attributes, NULL algorithm parameters) are not insisted on by any parser function ParsePKCS7 reaches (X1.optional)", "an AlgorithmIdentifier is accepted with NULL parameters as well as without (X1.params)", "a bare SignedData is accepted as well as one wrapped in a ContentInfo (X4.outer)", "a signed attribute of unknown type is neither refused nor dropped (X2.unknown)", "every field the attribute parser fills is emitted again by the attribute encoder, under the same attribute type and with the same ASN.1 primitive, and no field is filled from two different wire forms (X3.pair)", "nothing the parser consumes from the signed attributes is dropped: every structure cut out inside them is accounted for to its end and a single-valued field is not filled twice (A.lossless; found and led to the repair of parseAttributes)", "what is verified is the attribute encoder's output for the parsed attributes, by the caller's certificate (A.signature of C04)"},
+		[]string{"elements PKCS#7 makes OPTIONAL ([0] content, [0] certificates, [0] signed attributes, NULL algorithm parameters) are not insisted on by any parser function ParsePKCS7 reaches (X1.optional)", "an AlgorithmIdentifier is accepted with NULL parameters as well as without (X1.params)", "a bare SignedData is accepted as well as one wrapped in a ContentInfo (X4.outer)", "elements behind the encrypted digest of a SignerInfo are tolerated (X5.unsigned-tail)", "equality of algorithm parameters with one value is never necessary for acceptance (X1.params-compare)", "the digest covers the [0] content with exactly one header taken off (A.content-value)", "a function literal kept for later does not capture the loop variable (X6.distinct)", "a signed attribute of unknown type is neither refused nor dropped (X2.unknown)", "every field the attribute parser fills is emitted again by the attribute encoder, under the same attribute type and with the same ASN.1 primitive, and no field is filled from two different wire forms (X3.pair)", "nothing the parser consumes from the signed attributes is dropped: every structure cut out inside them is accounted for to its end and a single-valued field is not filled twice (A.lossless; found and led to the repair of parseAttributes)", "what is verified is the attribute encoder's output for the parsed attributes, by the caller's certificate (A.signature of C04)"},
 		[]string{"the bytes OpenSSL, sbsign or sbvarsign actually emit for any input and option", "that the re-encoding equals the signed bytes for a given blob", "DER canonicalisation of values inside attributes the parser keeps as raw bytes"})
 	// rules added with the third batch of seeded changes
 	recycle := "nothing handed back to a sync.Pool stays reachable from a result (P.recycle: aliases followed, copies end the trail)"
